@@ -50,18 +50,18 @@ Step ==
   /\ LET e == Rec[l] IN
      IF e.op = "reset" THEN s' = InitSubject /\ live' = TRUE /\ UNCHANGED bad
      ELSE IF e.op = "notify" THEN
-          /\ bad' = IF JudgeNotify(e) = {} THEN bad ELSE Append(bad, BadEntry(l, JudgeNotify(e), "notification builder"))
+          /\ bad' = IF JudgeNotify(e) = {} THEN bad ELSE AddBad(bad, BadEntry(l, JudgeNotify(e), "notification builder"))
           /\ UNCHANGED << s, live >>
      ELSE IF ~live THEN UNCHANGED << s, live, bad >>
      ELSE LET c == CallOf(e)
               ok == { x \in ObsAllowed(s, c) : ProjEq(x, e.st) } IN
           IF e.panicked \/ ok = {}
-          THEN /\ bad' = Append(bad, BadEntry(l, Blame(e), IF e.panicked THEN "panic" ELSE "state after the call is not allowed by Observe.tla"))
+          THEN /\ bad' = AddBad(bad, BadEntry(l, Blame(e), IF e.panicked THEN "panic" ELSE "state after the call is not allowed by Observe.tla"))
                /\ live' = FALSE /\ UNCHANGED s
           ELSE LET x == CHOOSE x \in ok : TRUE IN
                /\ s' = x /\ UNCHANGED live
                /\ bad' = IF OneObserverPerEndpoint(x) /\ (x # ObsApply(s, c) \/ StepProps(s, c, x)) THEN bad
-                         ELSE Append(bad, BadEntry(l, Blame(e), "step property"))
+                         ELSE AddBad(bad, BadEntry(l, Blame(e), "step property"))
 
 Finish == l = NRec + 1 /\ ~done /\ done' = TRUE /\ UNCHANGED << l, s, live, bad >>
           /\ WriteResult(bad, [episodes |-> Cardinality({i \in 1 .. NRec : Rec[i].op \in {"reset", "notify"}}), drift |-> 0])
